@@ -4,7 +4,8 @@
 for NAME in "$@"; do
   D=/verif/seeded/$NAME
   ID=${NAME%%-*}
-  RES=$(/verif/tools/trymut.sh $ID $D ${TIER:-quick} 2>&1)
+  ALSO=""; [ -f $D/also_run.txt ] && ALSO=$(cat $D/also_run.txt)
+  RES=$(/verif/tools/trymut.sh $ID $D ${TIER:-quick} $ALSO 2>&1)
   echo "$RES" > $D/result.txt
   python3 - "$D" "$(git -C /verif rev-parse --short HEAD)" "$(git -C /repo rev-parse --short HEAD)" <<'PY'
 import sys,json,re
@@ -18,8 +19,11 @@ verdict=[l for l in res.split('\n') if l.startswith('RESULT:')]
 det=bool(verdict) and verdict[-1].strip()=="RESULT: DETECTED"
 bad=re.search(r'DEMO DOES NOT|EXISTING SUITE FAILS|DOES NOT BUILD|PATCH DOES NOT APPLY',res)
 fps=re.findall(r'fingerprint: (.*)',res)
+by=[c for c,rc in re.findall(r'--- \./check (C\d\d) \w+ -> exit (\d+)',res) if rc=='1']
+m['detected_by_checks']=by
 hist.append({"run":f"re-evaluation with /verif {vrev}+ on /repo {rrev}","detected":det,"fingerprints_reported":fps[:12],"confirmed":not bad})
 m['detected']=det
+m['detected_only_by_another_propertys_check']=(not det) and bool(by)
 m['fingerprints_reported']=fps[:12]
 m['confirmed_by_me']=not bad
 try:
